@@ -19,6 +19,7 @@ package server
 
 import (
 	"bytes"
+	"encoding/json"
 	"fmt"
 	"os"
 	"path/filepath"
@@ -38,6 +39,8 @@ const (
 	k11KeyReentrant = "C11:reentrant-ack-lock-answered-before-log-write"
 	k11KeyLateReply = "C11:second-reply-after-ack-wait-timeout"
 	k11KeyC04Known  = "C04:no-wakeup-after-waiter-leaves"
+	k11KeyTwice     = "C11:write-error-inside-push-fails-ack-twice"
+	k11KeyRollback  = "C11:value-rollback-by-inverse-operation-inexact"
 )
 
 type k11Op struct {
@@ -146,6 +149,9 @@ type k11Req struct {
 	undoCheck bool
 	failed    bool
 	expectAW  bool
+	// answered TIMEOUT while the ledger had it queued: it may have left the queue and become ack-pending
+	// inside the same clock sweep (the harness cannot observe in between)
+	maybePending bool
 }
 
 type k11Hold struct {
@@ -165,9 +171,11 @@ type k11Key struct {
 	staleWake bool
 	checkWake string // non-empty: a pending hold was removed (why); waiters must have been served
 	// per harness step
-	baseVal   *aValue
-	baseKnown bool
-	stepApps  int
+	baseVal    *aValue
+	baseKnown  bool
+	stepApps   int
+	stepLeaves int // requests that left the wait queue in this step
+	stepRemovals int // holds removed in this step (each may have woken queued requests unobserved)
 }
 
 func (k *k11Key) holder(id [16]byte) *k11Hold {
@@ -180,6 +188,7 @@ func (k *k11Key) holder(id [16]byte) *k11Hold {
 }
 
 func (k *k11Key) removeHolder(h *k11Hold) {
+	k.stepRemovals++
 	for i, x := range k.holders {
 		if x == h {
 			k.holders = append(k.holders[:i:i], k.holders[i+1:]...)
@@ -211,6 +220,7 @@ type k11Info struct {
 	holdPhases, pendingMax, queuedBehindPending     int
 	dataFaultSucceeded, dataFaultFailed             int
 	knownReentrant, knownLateReply                  int
+	skippedDupQueued, excludedRollback              int
 	// cluster
 	ackFramesForwarded, ackFramesNegated, ackFramesDropped, ackFramesDelayed int
 	decidedByFollower, demotions, demotedPending, failedByFollower         int
@@ -220,6 +230,27 @@ type k11Info struct {
 type k11Viol struct {
 	Key string
 	Msg string
+	Sig string
+}
+
+func k11ValKind(v *aValue) string {
+	switch {
+	case v == nil:
+		return "none"
+	case v.Arr:
+		return "array"
+	case len(v.Payload) == 0:
+		return "empty"
+	case len(v.Payload) == 8:
+		return "8bytes"
+	}
+	return "bytes"
+}
+
+func (e *k11Env) sig(format string, a ...interface{}) {
+	if n := len(e.viols); n > 0 && e.viols[n-1].Sig == "" {
+		e.viols[n-1].Sig = fmt.Sprintf(format, a...)
+	}
 }
 
 type k11Env struct {
@@ -258,7 +289,7 @@ func (e *k11Env) viol(key string, format string, a ...interface{}) {
 	msg := fmt.Sprintf(format, a...)
 	e.hist = append(e.hist, "  !! "+key+" "+msg)
 	if len(e.viols) < 8 {
-		e.viols = append(e.viols, k11Viol{key, msg})
+		e.viols = append(e.viols, k11Viol{key, msg, ""})
 	}
 }
 
@@ -392,12 +423,13 @@ func (e *k11Env) onReply(client int, cmd *protocol.LockCommand, result uint8, lc
 	}
 	if r.Terminal >= 0 {
 		first := r.Replies[r.Terminal].Result
-		if first == protocol.RESULT_TIMEOUT && r.failed && e.known(k11KeyLateReply) {
+		late := first == protocol.RESULT_TIMEOUT && r.Op.K == "lock" && r.Op.Ack && result == protocol.RESULT_LOCKED_ERROR && (r.failed || r.maybePending)
+		if late && e.known(k11KeyLateReply) {
 			e.info.knownLateReply++
 			return
 		}
 		key := "C11:second-terminal-reply"
-		if first == protocol.RESULT_TIMEOUT && r.failed {
+		if late {
 			key = k11KeyLateReply
 		} else if first == protocol.RESULT_SUCCED && r.Op.Ack {
 			key = "C11:second-reply-after-succed"
@@ -432,6 +464,16 @@ func (e *k11Env) diskCheck(r *k11Req, what string) {
 
 // failure of an ack-pending hold: requester got an error / TIMEOUT
 func (e *k11Env) onPendingFailed(k *k11Key, h *k11Hold, r *k11Req, rp *k11Reply, why string) {
+	// an ack-required request with a value operation that is queued on this key may have left the queue
+	// unobserved after an earlier hold removal of this step and applied its operation on top of r's
+	silent := false
+	if k.stepRemovals > 0 {
+		for _, w := range k.waiters {
+			if w.Op.Ack && w.Op.V != nil {
+				silent = true
+			}
+		}
+	}
 	k.removeHolder(h)
 	r.State = k11Ended
 	r.failed = true
@@ -448,7 +490,7 @@ func (e *k11Env) onPendingFailed(k *k11Key, h *k11Hold, r *k11Req, rp *k11Reply,
 	if len(k.waiters) > 0 {
 		e.info.failedWithValueAndWaiter++
 	}
-	unamb := r.preKnown && k.valSeq == r.applySeq
+	unamb := r.preKnown && k.valSeq == r.applySeq && !silent
 	k.valSeq++
 	r.undoSeq = k.valSeq
 	if !unamb {
@@ -463,6 +505,7 @@ func (e *k11Env) onPendingFailed(k *k11Key, h *k11Hold, r *k11Req, rp *k11Reply,
 		e.viol("C11:value-not-restored", "%s reply to failed ack request #%d carries a malformed value frame: %v", aResultName(rp.Result), r.Idx, err)
 	} else if !aValueEqual(got, r.pre) {
 		e.viol("C11:value-not-restored", "request #%d (%v) %s: its %s reply carries value %s, the value before the request was %s", r.Idx, r.Op, why, aResultName(rp.Result), got.String(), r.pre.String())
+		e.sig("reply op=%s before=%s after=%s", r.Op.V.Op, k11ValKind(r.pre), k11ValKind(got))
 	}
 	r.undoCheck = true
 }
@@ -496,6 +539,7 @@ func (e *k11Env) onLockReply(k *k11Key, r *k11Req, rp *k11Reply) {
 			}
 		case k11Queued:
 			k.removeWaiter(r)
+			k.stepLeaves++
 			if h != nil {
 				e.viol("C11:ledger", "queued request #%d granted although its LockId already holds the key", r.Idx)
 				return
@@ -557,8 +601,16 @@ func (e *k11Env) onLockReply(k *k11Key, r *k11Req, rp *k11Reply) {
 			e.onPendingFailed(k, h, r, rp, "ack wait timed out")
 		case k11Queued:
 			k.removeWaiter(r)
+			k.stepLeaves++
 			r.State = k11Ended
 			k.staleWake = true
+			if r.Op.Ack {
+				r.maybePending = true
+				if r.Op.V != nil {
+					k.valSeq++ // possibly applied and rolled back unobserved
+					k.baseKnown = false
+				}
+			}
 		default:
 			r.State = k11Ended
 		}
@@ -580,6 +632,7 @@ func (e *k11Env) onLockReply(k *k11Key, r *k11Req, rp *k11Reply) {
 			// an ack-required waiter that was woken and failed before the harness saw it pending
 			if r.Op.Ack && rp.Result != protocol.RESULT_STATE_ERROR {
 				k.removeWaiter(r)
+				k.stepLeaves++
 				r.State = k11Ended
 				r.failed = true
 				e.info.failResults["woken-unobserved:"+aResultName(rp.Result)] = true
@@ -666,6 +719,42 @@ func (e *k11Env) onUnlockReply(k *k11Key, r *k11Req, rp *k11Reply) {
 	}
 }
 
+// k11RollbackExact: is the roll-back of op's value operation exact in the current state? (domain outside
+// of which the listed finding k11KeyRollback applies: the undo is computed by an inverse operation, which
+// is only right when the previous value has the operation's own type and is not the UNSET marker that a
+// rolled-back first operation leaves behind; a request that may queue meets an unknown value later)
+func k11RollbackExact(d *LockDB, op k11Op, before *aSnapKey) bool {
+	switch op.V.Op {
+	case "set", "unset", "shift", "pop":
+		return true
+	}
+	if before == nil {
+		return true
+	}
+	if len(before.Holders) > 0 || len(before.Waiters) > 0 {
+		return false
+	}
+	cmd := &protocol.LockCommand{}
+	cmd.DbId, cmd.LockKey = 0, aKey(op.Key)
+	m := d.GetLockManager(cmd)
+	if m == nil || m.currentData == nil {
+		return true
+	}
+	cd := m.currentData
+	if cd.GetData() == nil {
+		return false // UNSET marker
+	}
+	switch op.V.Op {
+	case "incr":
+		return !cd.IsArrayValue() && cd.GetValueSize() == 8
+	case "append":
+		return true
+	case "push":
+		return cd.IsArrayValue()
+	}
+	return false
+}
+
 // ---------------------------------------------------------------------------------------------
 // harness steps
 
@@ -701,7 +790,7 @@ func (e *k11Env) beginStep() {
 	snaps := aSnapshot(0, e.db)
 	e.mu.Lock()
 	for _, k := range e.keys {
-		k.stepApps = 0
+		k.stepApps, k.stepLeaves, k.stepRemovals = 0, 0, 0
 		k.baseKnown = false
 		if s := e.snapKey(snaps, k.key); s != nil {
 			if v, err := aDecodeFrame(s.Data); err == nil {
@@ -719,10 +808,32 @@ func (e *k11Env) send(op k11Op) {
 	op.C = op.C % n
 	p := e.clients[op.C]
 	k := e.key(op.Key)
-	r := &k11Req{Idx: len(e.reqs), Op: op, Time: e.now, Terminal: -1, LockId: aLockId(op.Id), Key: aKey(op.Key)}
 	var before *aSnapKey
 	snaps := aSnapshot(0, e.db)
-	before = e.snapKey(snaps, r.Key)
+	before = e.snapKey(snaps, aKey(op.Key))
+	if op.K == "lock" {
+		// out of scope (C02): a second request for a LockId that is still queued makes two holds of one LockId
+		e.mu.Lock()
+		for _, w := range k.waiters {
+			if w.LockId == aLockId(op.Id) {
+				e.logf("skipped (LockId is queued): %v", op)
+				e.info.skippedDupQueued++
+				e.mu.Unlock()
+				return
+			}
+		}
+		e.mu.Unlock()
+		if op.Ack && op.V != nil && e.known(k11KeyRollback) && !k11RollbackExact(e.db, op, before) {
+			e.logf("value operation %v replaced by set (known finding %s)", op.V, k11KeyRollback)
+			nv := &aVal{Op: "set", B: op.V.B}
+			if len(nv.B) == 0 {
+				nv.B = []byte{byte(op.V.N), 0, 0, 0, 0, 0, 0, 0}
+			}
+			op.V = nv
+			e.info.excludedRollback++
+		}
+	}
+	r := &k11Req{Idx: len(e.reqs), Op: op, Time: e.now, Terminal: -1, LockId: aLockId(op.Id), Key: aKey(op.Key)}
 	e.mu.Lock()
 	if h := k.holder(r.LockId); h != nil && h.pending {
 		r.expectAW = true
@@ -809,6 +920,10 @@ func (e *k11Env) tick(n int) {
 			if !e.quiesce() {
 				return
 			}
+		}
+		if s+1 < n {
+			e.reconcile(fmt.Sprintf("during tick (second %d)", s+1))
+			e.beginStep()
 		}
 	}
 }
@@ -908,11 +1023,13 @@ func (e *k11Env) classify() {
 			}
 			if r.State == k11Queued {
 				k.removeWaiter(r)
+				k.stepLeaves++
 				e.info.ackFromQueue++
-				// value before its operation = value the key had when the step began (after a roll-back of the
-				// failed predecessor), provided nothing else applied a value in this step
+				// value before its operation = value the key had when the step began (or the value restored by
+				// the roll-back of the failed predecessor), provided this is the only request that left the queue
+				// in this step and nothing else applied a value
 				r.preKnown = false
-				if r.Op.V != nil && k.baseKnown && k.stepApps == 0 {
+				if r.Op.V != nil && k.baseKnown && k.stepApps == 0 && k.stepLeaves == 1 {
 					r.pre, r.preKnown = k.baseVal, true
 				}
 			} else {
@@ -1075,6 +1192,7 @@ func (e *k11Env) reconcile(where string) {
 				e.info.valueRestoreSnapChecked++
 				if err != nil || !aValueEqual(got, r.pre) {
 					e.viol("C11:value-not-restored", "%s: key %d holds value %s (err %v) after ack request #%d (%v) failed; before the request it was %s", where, i, got.String(), err, r.Idx, r.Op, r.pre.String())
+					e.sig("stored op=%s before=%s after=%s", r.Op.V.Op, k11ValKind(r.pre), k11ValKind(got))
 				}
 			}
 		}
@@ -1241,10 +1359,16 @@ func k11RunSingleOpts(c *k11Case, replay bool) (out k11Out) {
 	if ok && e.held {
 		ok = e.step(k11Op{K: "release"})
 	}
+	abandon := false
 	if ok {
 		if s := aScanFreed(e.db); s != "" {
+			abandon = true // LockDB.Close would walk the wheel and dereference the freed object
 			e.mu.Lock()
-			e.viol("C11:freed-lock-reachable", "%s", s)
+			key := "C11:freed-lock-reachable"
+			if c.AofBuf < 4096 {
+				key = k11KeyTwice
+			}
+			e.viol(key, "%s", s)
 			e.mu.Unlock()
 		}
 	}
@@ -1256,6 +1380,14 @@ func k11RunSingleOpts(c *k11Case, replay bool) (out k11Out) {
 	out.viols, out.history, out.info, out.inconclusive = e.viols, e.history(), e.info, e.inconcl
 	e.mu.Unlock()
 	e.closeClients()
+	if abandon {
+		atomic.AddInt64(&vAbandoned, 1)
+		return
+	}
+	if dbg := os.Getenv("VERIF_K11_DEBUG"); dbg != "" {
+		b, _ := json.Marshal(map[string]interface{}{"key": "C11:probe", "case": c})
+		_ = os.WriteFile(dbg, append(b, []byte("\n"+out.history)...), 0644)
+	}
 	e.inst.vClose(false, true)
 	return
 }
